@@ -310,9 +310,11 @@ def _replay(L, case, out):
         got = L.code_str(o)
         if got != want or GENERATED.search(got):
             bad("PrintsDisplayNames", f"code_str of the bare function object {j + 1} shows {got!r}, expected {want!r}")
+        if not m["explicitL"]:
+            continue          # its LaTeX name derives from a generated name (nothing else was given)
         got = L.latex_str(o)
         if GENERATED.search(got) or re.search(r"(?:SYM|FUN|QTY)_\{\d+\}", got) or \
-                (m["explicitL"] and not any(f in got for f in _latex_forms(translate(m["latex"])))):
+                not any(f in got for f in _latex_forms(translate(m["latex"]))):
             bad("PrintsDisplayNames", f"latex_str of the bare function object {j + 1} shows {got!r}: a generated name, "
                                       f"or not the LaTeX name {translate(m['latex'])!r}")
 
